@@ -344,3 +344,56 @@ pub proof fn lemma_esds_roundtrip(d: Seq<u8>, p: int, b: EsdsBox)
     assert(esd_fold(s, q + 9, q + 31, None) == Some(c));
     assert(esd_of(s, q + 6, 25) == e);
 }
+
+// ---- stsd (8.5.2), encode side: FullBox, entry_count = 1, the sample entry. Byte-exact for the entries whose encoders are
+//      (avc1, vp09, mp4a); hev1 and tx3g entries are covered by size only.
+pub open spec fn stsd_entry_exact(b: StsdBox) -> bool {
+    b.avc1 is Some || (b.hev1 is None && (b.vp09 is Some || b.mp4a is Some || b.tx3g is None))
+}
+pub open spec fn stsd_entry_bytes(b: StsdBox) -> Seq<u8> {
+    if b.avc1 is Some { avc1_bytes(b.avc1->Some_0) } else if b.vp09 is Some { vp09_bytes(b.vp09->Some_0) }
+    else if b.mp4a is Some { mp4a_bytes(b.mp4a->Some_0) } else { Seq::empty() }
+}
+pub open spec fn stsd_head(b: StsdBox) -> Seq<u8> {
+    hdr_bytes(stsd_len(b) as u64, 0x73747364) + fullbox_bytes(b.version, b.flags) + be_bytes(1, 4)
+}
+pub open spec fn stsd_bytes(b: StsdBox) -> Seq<u8> { stsd_head(b) + stsd_entry_bytes(b) }
+
+// ---- hdlr (8.4.3), encode side: FullBox, pre_defined(32)=0, handler_type(32), reserved(3x32)=0, name (UTF-8, NUL terminated)
+pub open spec fn hdlr_head(b: HdlrBox) -> Seq<u8> {
+    hdr_bytes(hdlr_len(b) as u64, 0x68646c72) + fullbox_bytes(b.version, b.flags) + be_bytes(0, 4) + be_bytes(u32_of_fourcc(b.handler_type) as nat, 4)
+}
+pub open spec fn hdlr_bytes(b: HdlrBox) -> Seq<u8> { hdlr_head(b) + zeros(12) + utf8(b.name@) + seq![0u8] }
+pub proof fn lemma_zeros_step(n: nat)
+    ensures zeros(n) + be_bytes(0, 4) =~= zeros(n + 4), zeros(0) =~= Seq::<u8>::empty()
+{
+    broadcast use group_be_bytes, lemma_be_bytes_len;
+    assert(be_bytes(0, 4) =~= zeros(4));
+}
+pub proof fn lemma_hdlr_roundtrip(d: Seq<u8>, p: int, b: HdlrBox)
+    requires 0 <= p, hdlr_wire(b)
+    ensures hdlr_at(wr(d, p, hdlr_bytes(b)), p + 8, b), hdr_at(wr(d, p, hdlr_bytes(b)), p, hdlr_len(b) as u64, 0x68646c72)
+{
+    broadcast use lemma_be_bytes_len;
+    let all = hdlr_bytes(b);
+    let h = hdr_bytes(hdlr_len(b) as u64, 0x68646c72);
+    let rest = zeros(12) + utf8(b.name@) + seq![0u8];
+    let pre2 = h + seq![b.version] + be_bytes(b.flags as nat, 3) + be_bytes(0, 4);
+    assert(all =~= (pre2 + be_bytes(u32_of_fourcc(b.handler_type) as nat, 4)) + rest);
+    lemma_prefix_refl(all);
+    lemma_prefix_app(pre2 + be_bytes(u32_of_fourcc(b.handler_type) as nat, 4), rest, all);
+    lemma_rd4(d, p, pre2, u32_of_fourcc(b.handler_type) as nat, all);
+    lemma_prefix_app(pre2, be_bytes(u32_of_fourcc(b.handler_type) as nat, 4), all);
+    assert(pre2 == (h + seq![b.version] + be_bytes(b.flags as nat, 3)) + be_bytes(0, 4));
+    lemma_prefix_app(h + seq![b.version] + be_bytes(b.flags as nat, 3), be_bytes(0, 4), all);
+    lemma_rd3(d, p, h + seq![b.version], b.flags as nat, all);
+    lemma_prefix_app(h + seq![b.version], be_bytes(b.flags as nat, 3), all);
+    lemma_rd1s(d, p, h, b.version, all);
+    lemma_prefix_app(h, seq![b.version], all);
+    assert(h == be_bytes(hdlr_len(b) as nat, 4) + be_bytes(0x68646c72, 4));
+    lemma_rd4(d, p, be_bytes(hdlr_len(b) as nat, 4), 0x68646c72, all);
+    lemma_prefix_app(be_bytes(hdlr_len(b) as nat, 4), be_bytes(0x68646c72, 4), all);
+    assert(Seq::<u8>::empty() + be_bytes(hdlr_len(b) as nat, 4) =~= be_bytes(hdlr_len(b) as nat, 4));
+    lemma_rd4(d, p, Seq::<u8>::empty(), hdlr_len(b) as nat, all);
+    lemma_fourcc_of_u32_of(b.handler_type);
+}
